@@ -148,6 +148,9 @@ pub enum Re {
     Opt(Box<Re>),
     Rep(Box<Re>, u32, RepMax),
     Group(GroupKind, Box<Re>),
+    /// A fragment of raw regex syntax, printed as is (used to plant unsupported constructs; never
+    /// reaches the reference semantics).
+    Raw(String),
 }
 
 // ------------------------------------------------------------------------------------------------
@@ -363,6 +366,7 @@ pub fn print_re(re: &Re, out: &mut String) {
                 RepMax::Bounded(n) => out.push_str(&format!("{{{},{}}}", m, n)),
             }
         }
+        Re::Raw(t) => out.push_str(t),
         Re::Group(k, x) => {
             match k {
                 GroupKind::Capture => out.push('('),
@@ -387,7 +391,7 @@ impl Re {
     pub fn nullable(&self) -> bool {
         match self {
             Re::Empty => true,
-            Re::Lit(..) | Re::Dot | Re::Class(_) | Re::Perl(..) | Re::Uni(..) => false,
+            Re::Lit(..) | Re::Dot | Re::Class(_) | Re::Perl(..) | Re::Uni(..) | Re::Raw(_) => false,
             Re::Cat(xs) => xs.iter().all(|x| x.nullable()),
             Re::Alt(xs) => xs.is_empty() || xs.iter().any(|x| x.nullable()),
             Re::Star(_) | Re::Opt(_) => true,
@@ -445,6 +449,7 @@ impl Re {
             Re::Class(c) => Re::Class(c.normalized()),
             Re::Perl(k, n) => Re::Perl(*k, *n),
             Re::Uni(s, n) => Re::Uni(s.clone(), *n),
+            Re::Raw(t) => Re::Raw(t.clone()),
             Re::Cat(xs) => {
                 let mut out = Vec::new();
                 for x in xs {
